@@ -173,6 +173,7 @@ Theorem C02_source_tables :
                       /\ freq_high (Fin n) PosInf = false)
   /\ null_member_is_none = true /\ body_lookup_both_key_forms = true /\ single_none_is_null = true
   /\ int_slot_float_is_int = true /\ ret_bool_by_identity = true /\ hier_counts_array_items = false
+  /\ cycle_guard_per_branch = true
   /\ handlers = expected_handlers
   /\ GMsgpack_key_utf8 = true /\ GJson_key_utf8 = false /\ GYaml_key_utf8 = false
   /\ GMsgpack_writes_bytes = true /\ GJson_base64 = true /\ GYaml_base64 = true.
